@@ -122,8 +122,9 @@ class CallMixin:
                 return self.expand_macro(self.reg.macros[f.id], [self.ev(a, st, True) for a in node.args], st)
             if f.id in self.reg.funs:
                 return self.apply_fun(self.reg.funs[f.id], [self.ev(a, st, True) for a in node.args], st)
-        if isinstance(f, ast.Name) and f.id == "super" :
-            pass
+        if isinstance(f, ast.Attribute) and f.attr in ("debug", "info", "warning", "error", "critical") and \
+                isinstance(f.value, ast.Attribute) and f.value.attr == "logger":
+            return mk_none()        # logging has no effect on the modelled state; its arguments are not evaluated
         callee = self.ev(f, st, spec)
         if isinstance(callee, PyVal) and callee.kind == "func" and callee.name in ("print",):
             return mk_none()
@@ -498,6 +499,18 @@ class CallMixin:
             raise Unsupported("sorting with comparator %s needs a proved total-preorder lemma (options.proved_orders)" % name)
         self.ctx.assumed.add("lemma:" + need)
 
+    def _hof_target(self, f, st, what, expect):
+        """call-site obligation: the callable handed to an external optimiser is the expected method (4.8)"""
+        ok = isinstance(f, PyVal) and f.kind == "boundmethod" and f.name == expect[1] and is_sv(f.recv) and \
+            f.recv.ty.kind == "ref" and self.subclass(f.recv.ty.arg, expect[0])
+        self.ctx.oblige(st, "callsite", z3.BoolVal(bool(ok)),
+                        text="%s receives %s.%s as its objective callable" % (what, expect[0], expect[1]))
+        self.ctx.models_used.add("%s: external optimiser; calls the supplied callable some number of times and uses only its return value" % what)
+
+    def bi_scipy_optimize_minimize(self, args, kwargs, st, spec):
+        self._hof_target(args[0], st, "scipy.optimize.minimize", ("Evaluator", "evaluate_scalar"))
+        return PyVal("const", value="<OptimizeResult>")
+
     def bi_dir(self, args, kwargs, st, spec):
         v = args[0]
         return PyVal("dir", of=v)
@@ -644,6 +657,11 @@ class CallMixin:
         ety = lst.ty.arg
         if ety.kind == "any":
             raise Unsupported("append to a list of unknown element type (declare it)")
+        if v.ty.kind == "none" and ety.kind in ("real", "int"):
+            # appending None to a list of numbers (Evaluator.evaluate_serial does this to the *old* costs list):
+            # the new element is an arbitrary value of the element sort (sound over-approximation; it is never read as a number)
+            self.ctx.models_used.add("list.append(None) on a numeric list: the new element is unconstrained")
+            v = self.fresh_value(ety, "none_elem", st)
         v = self.coerce(v, ety, st)
         ln = self.list_len(lst, st)
         arr = rd(self.content_arr(ety, st), lst.t)
